@@ -49,6 +49,7 @@ func c08Cases(tier string, seed int64) []core.Case {
 	for _, mp := range []int{0, 4} {
 		mp := mp
 		cases = append(cases, core.Case{ID: fmt.Sprintf("slow-flushop/maxpend=%d", mp), Run: func(ctx *core.Ctx) core.Result { return c08SlowFlush(ctx.Seed, mp) }})
+		cases = append(cases, core.Case{ID: fmt.Sprintf("slow-fiddestroy/maxpend=%d", mp), Run: func(ctx *core.Ctx) core.Result { return c08SlowDestroy(ctx.Seed, mp) }})
 	}
 	reps := 2
 	if tier == "thorough" {
@@ -466,6 +467,145 @@ func c08SlowFlush(seed int64, maxpend int) core.Result {
 		res.Sig(fmt.Sprintf("slowflush|mp=%d|free=%d|round=%d", maxpend, len(free), round))
 	}
 	res.Sample(map[string]interface{}{"scenario": "Tflush blocked inside FlushOp while other requests must progress", "maxpend": maxpend})
+	e.c.Hangup()
+	other.c.Hangup()
+	return res
+}
+
+// c08SlowDestroy: a request whose completion makes the framework report a fid destroyed (Tclunk, Tremove, a failed
+// Twalk giving up its new fid) is slow inside the implementation's FidDestroy; requests with other tags on the same
+// and on another connection must be answered meanwhile.
+func c08SlowDestroy(seed int64, maxpend int) core.Result {
+	var res core.Result
+	s, e, other, ok := c08setup(Config{Dotu: true, Msize: 8192, Maxpend: maxpend})
+	if !ok {
+		res.Inconclusive = "c08: setup failed"
+		return res
+	}
+	c := e.c
+	kinds := []string{"clunk", "remove", "failed-walk"}
+	for round := 0; round < 12 && len(res.Violations) == 0; round++ {
+		kind := kinds[round%len(kinds)]
+		f := uint32(500 + 4*round)
+		seq0 := s.Log.Seq()
+		if !e.ok(&wire.Msg{Type: wire.Twalk, Fid: e.root, Newfid: f, Wname: []string{"f"}}) || !e.ok(&wire.Msg{Type: wire.Tstat, Fid: f}) {
+			res.Inconclusive = "c08: setup walk failed"
+			break
+		}
+		var slow *wire.Msg
+		gate := make(chan struct{})
+		switch kind {
+		case "clunk", "remove":
+			var tok int64
+			for _, ev := range s.Log.Snapshot(seq0) {
+				if ev.Kind == "op" && ev.Op == "Stat" && ev.Conn == c.ID {
+					tok = ev.Fid
+				}
+			}
+			if tok == 0 {
+				res.Inconclusive = "c08: fid token not learned"
+				return res
+			}
+			s.Ops.SetDestroyGate(tok, gate)
+			slow = &wire.Msg{Type: wire.Tclunk, Fid: f, Tag: e.next()}
+			if kind == "remove" {
+				slow.Type = wire.Tremove
+			}
+		case "failed-walk":
+			// the new fid of a walk the implementation fails is given up by the framework: its token is only known
+			// once the implementation has seen it, so the walk is held in the implementation while the gate is armed
+			slow = &wire.Msg{Type: wire.Twalk, Fid: e.root, Newfid: f + 1, Wname: []string{"x"}, Tag: e.next()}
+			p := script.NewPlan()
+			p.Err, p.Errnum = "no such name", 2
+			p.Gate = make(chan struct{})
+			p.Entered = make(chan struct{})
+			s.Ops.SetPlan(c.ID, slow.Tag, p)
+			seq1 := s.Log.Seq()
+			_ = c.Send(slow)
+			select {
+			case <-p.Entered:
+			case <-time.After(W):
+				res.Inconclusive = "c08: walk never started"
+				return res
+			}
+			for _, ev := range s.Log.Snapshot(seq1) {
+				if ev.Kind == "op" && ev.Op == "Walk" && ev.Conn == c.ID && ev.Tag == slow.Tag && ev.Newfid != 0 {
+					s.Ops.SetDestroyGate(ev.Newfid, gate)
+				}
+			}
+			close(p.Gate)
+		}
+		seq2 := s.Log.Seq()
+		if kind != "failed-walk" {
+			_ = c.Send(slow)
+		}
+		inDestroy := waitFor(W, func() bool {
+			for _, ev := range s.Log.Snapshot(seq2 - 1) {
+				if ev.Kind == "destroy" {
+					return true
+				}
+			}
+			return false
+		})
+		if !inDestroy {
+			close(gate)
+			res.Inconclusive = "c08: FidDestroy was not reached for " + kind
+			return res
+		}
+		res.Evals++
+		var free []*wire.Msg
+		for i := 0; i < 1+round%4; i++ {
+			free = append(free, &wire.Msg{Type: wire.Tstat, Fid: e.root, Tag: e.next()})
+		}
+		free = append(free, &wire.Msg{Type: wire.Twalk, Fid: e.root, Newfid: f + 2, Tag: e.next()}, &wire.Msg{Type: wire.Tclunk, Fid: f + 2, Tag: e.next()})
+		for _, m := range free {
+			_ = c.Send(m)
+			if m.Type == wire.Twalk {
+				c.WaitTag(m.Tag, W) // the clunk names the fid this walk creates
+			}
+		}
+		om := &wire.Msg{Type: wire.Tstat, Fid: other.root, Tag: other.next()}
+		_ = other.c.Send(om)
+		late := false
+		deadline := time.Now().Add(W)
+		for _, m := range free {
+			if m.Type == wire.Twalk {
+				continue
+			}
+			if rp, err := c.WaitTag(m.Tag, time.Until(deadline)); err != nil || rp.Msg == nil {
+				late = true
+			}
+		}
+		_, oerr := other.c.WaitTag(om.Tag, time.Until(deadline))
+		close(gate)
+		det := map[string]interface{}{"maxpend": maxpend, "round": round, "slow_request": slow.String(), "blocked_in": "FidDestroy"}
+		if late {
+			ok := true
+			for _, m := range free {
+				if m.Type == wire.Twalk {
+					continue
+				}
+				if rp, err := c.WaitTag(m.Tag, W); err != nil || rp.Msg == nil {
+					ok = false
+				}
+			}
+			if ok {
+				res.Violate(fmt.Sprintf("C08;head-of-line;slow-fiddestroy;%s;maxpend=%d", kind, maxpend), "requests with other tags were answered only after a request blocked in the implementation's FidDestroy was released", det)
+			} else {
+				res.Inconclusive = "c08: requests never answered"
+			}
+		}
+		if oerr != nil {
+			if rp, err := other.c.WaitTag(om.Tag, W); err == nil && rp.Msg != nil {
+				res.Violate(fmt.Sprintf("C08;head-of-line;slow-fiddestroy;other-conn;%s;maxpend=%d", kind, maxpend), "a request on another connection waited for a request blocked in FidDestroy", det)
+			}
+		}
+		c.WaitTag(slow.Tag, W)
+		c.Quiesce(W)
+		res.Count("requests_blocked_in_fiddestroy", 1)
+		res.Sig(fmt.Sprintf("slowdestroy|mp=%d|%s|free=%d", maxpend, kind, len(free)))
+	}
+	res.Sample(map[string]interface{}{"scenario": "Tclunk/Tremove/failed Twalk blocked inside FidDestroy while other requests must progress", "maxpend": maxpend})
 	e.c.Hangup()
 	other.c.Hangup()
 	return res
